@@ -1,7 +1,7 @@
 (* E2E — non-vacuity: small files evaluated by vm_compute; the hypotheses of the main theorems are satisfiable. *)
 From Coq Require Import List NArith ZArith QArith Bool Arith Lia.
 From Outrank Require Import IO.Str IO.StrProofs.
-From Outrank Require IO.Csv Pipeline.Combos.
+From Outrank Require IO.Csv IO.CsvProofs Pipeline.Combos.
 From Outrank Require Import E2E.Compose E2E.RowsProofs E2E.ComposeProofs E2E.FileProofs E2E.SpecProofs.
 Import ListNotations.
 Local Open Scope N_scope.
@@ -22,7 +22,7 @@ Definition ex_text : list N :=
 Definition s_label : list N := [108; 97; 98; 101; 108].
 Definition s_False : list N := [70; 97; 108; 115; 101].
 Definition ex_cfg := mkconfig 2 1 s_label Combos.s_True h_maxcov 32768.
-Definition ex_cfg_pairwise := mkconfig 2 1 s_label s_False h_maxcov 9.
+Definition ex_cfg_pairwise := mkconfig 2 1 s_label s_False h_maxcov 6.
 Definition ex_cfg_const := mkconfig 2 1 s_label s_False h_constant 32768.
 
 Example ex_text_is_rendered : render_file ex_names ex_rows = ex_text.
@@ -33,11 +33,12 @@ Example ex_run : e2e_run ex_cfg ex_text =
   Some [([120], s_label, 2 # 4); (s_label, [120], 2 # 4); (s_label, s_label, 3 # 4); (s_label, [122], 3 # 4); ([122], s_label, 3 # 4)].
 Proof. vm_compute. reflexivity. Qed.
 
-(* pairwise mode with the cap exactly at the number of candidates (6 pairs + 2 diagonal + ... = 8 <= 9): 9 ordered pairs *)
+(* pairwise mode with the cap exactly at the number of candidates (every unordered pair once, self pairs included: 6):
+   9 ordered pairs in the table *)
 Example ex_run_pairwise : option_map (@length _) (e2e_run ex_cfg_pairwise ex_text) = Some 9%nat.
 Proof. vm_compute. reflexivity. Qed.
 
-Example ex_run_cap_binding : e2e_run (mkconfig 2 1 s_label s_False h_maxcov 7) ex_text = None.
+Example ex_run_cap_binding : e2e_run (mkconfig 2 1 s_label s_False h_maxcov 5) ex_text = None.
 Proof. vm_compute. reflexivity. Qed.
 
 Example ex_run_const : e2e_run ex_cfg_const ex_text =
@@ -47,15 +48,16 @@ Proof. vm_compute. reflexivity. Qed.
 (* the hypotheses of E2E_wellformed_file hold for this table, so the run can be stated over the table *)
 Example ex_wellformed :
   ex_names <> [] /\ Forall (none (fun ch => (ch =? COMMA) || is_nl ch)) ex_names /\ edge_clean (join_with [COMMA] ex_names) /\
-  Forall (fun r => r <> [] /\ Forall (none is_nl) r) ex_rows.
+  Forall (fun r => r <> [] /\ Forall (none is_nl) r) ex_rows /\ Forall (Forall CsvProofs.flen_ok) ex_rows.
 Proof.
-  split; [discriminate|]. split; [repeat constructor|]. split; [split; vm_compute; reflexivity|].
-  repeat (constructor; [split; [discriminate|repeat constructor]|]). constructor.
+  split; [discriminate|]. split; [repeat constructor|]. split; [split; vm_compute; reflexivity|]. split.
+  - repeat (constructor; [split; [discriminate|repeat constructor]|]). constructor.
+  - repeat (constructor; [repeat (constructor; [unfold CsvProofs.flen_ok; vm_compute; discriminate|]); constructor|]). constructor.
 Qed.
 
 Example ex_run_over_table : e2e_core ex_cfg ex_names (map Some ex_rows) = e2e_run ex_cfg ex_text.
 Proof.
-  destruct ex_wellformed as (H1 & H2 & H3 & H4). rewrite <- ex_text_is_rendered. symmetry. apply wellformed_run; assumption.
+  destruct ex_wellformed as (H1 & H2 & H3 & H4 & H5). rewrite <- ex_text_is_rendered. symmetry. apply wellformed_run; assumption.
 Qed.
 
 (* the hypotheses of E2E_spec are satisfiable *)
